@@ -1224,6 +1224,32 @@ mod real {
         if preset == "corpus-backlog130" {
             return multi_node_corpus_backlog(seed, lines, raw);
         }
+        if preset == "corpus-sync1100" {
+            // more divergent keys than max_keys_per_sync (1000) at one anti-entropy exchange
+            let mut sim = MultiNodeSimulation::new(3, seed);
+            let keys: Vec<String> = (0..1100).map(|i| format!("k{:04}", (i * 7919) % 1100)).collect();
+            sim.partition(0, 1);
+            sim.partition(0, 2);
+            for (i, k) in keys.iter().enumerate() {
+                sim.execute(0, 0, Command::set(k.clone(), SDS::from_str(&format!("v{}", i))));
+            }
+            raw.push("shape burst=1100".into());
+            raw.push(format!("shape sync-divergent-keys={}", mn_div_class(mn_divergent(&sim, &keys, 0, 1))));
+            mn_fingerprint(&sim, lines, "isolated-writes");
+            sim.heal_partition(0, 1);
+            mn_fingerprint(&sim, lines, "heal 0 1");
+            sim.run_anti_entropy_sync(0, 2);
+            mn_fingerprint(&sim, lines, "sync 0 2");
+            let mut sorted = keys.clone();
+            sorted.sort();
+            let have: Vec<usize> = (0..3).map(|n| sorted.iter().filter(|k| sim.nodes[n].replica_state.get_replicated(k).is_some()).count()).collect();
+            lines.push(format!("keys-present {:?}", have));
+            // which keys crossed in the limited exchange
+            let got: Vec<&String> = sorted.iter().filter(|k| sim.nodes[1].replica_state.get_replicated(k).is_some()).collect();
+            lines.push(format!("node1 first={:?} last={:?}", got.first(), got.last()));
+            mn_final(&mut sim, &sorted, lines);
+            return true;
+        }
         let mut r = Rng::new(seed ^ 0x6E4);
         let n = 2 + r.below(4) as usize;
         let loss = *r.pick(&[0.0, 0.0, 0.1, 0.3]);
@@ -1632,7 +1658,7 @@ const FAMILIES: &[Family] = &[
     Family { name: "sorted-set", presets: &["default", "small_keyspace", "large_keyspace", "gen"], ops: 300, modelled: true, quick_presets: 4 },
     Family { name: "transaction", presets: &["default", "high_conflict", "error_heavy", "gen"], ops: 200, modelled: true, quick_presets: 4 },
     Family { name: "multi-node", presets: &["broadcast", "lossy", "partitioned", "no-anti-entropy"], ops: 250, modelled: false, quick_presets: 3 },
-    Family { name: "multi-node-gen", presets: &["corpus-backlog130", "gen-broadcast", "gen-partitioned", "gen-no-auto-ae"], ops: 18, modelled: false, quick_presets: 4 },
+    Family { name: "multi-node-gen", presets: &["corpus-backlog130", "corpus-sync1100", "gen-broadcast", "gen-partitioned", "gen-no-auto-ae"], ops: 18, modelled: false, quick_presets: 5 },
     Family { name: "partition", presets: &["isolate", "split_brain", "ring", "asymmetric"], ops: 0, modelled: false, quick_presets: 2 },
     Family { name: "streaming", presets: &["moderate", "chaos", "gen", "calm", "default"], ops: 150, modelled: false, quick_presets: 3 },
     Family { name: "compaction", presets: &["chaos", "aggressive", "gen", "calm", "default"], ops: 120, modelled: false, quick_presets: 3 },
